@@ -1085,6 +1085,13 @@ func (s *caseState) checkFencingHistory(events []Event, logs map[string][]*proto
 	}
 	fences := map[string][]fence{}
 	for _, e := range events {
+		if e.Kind == "deleteshard" && e.Err == "" {
+			// the replica was removed from this node on the coordinator's order: the node keeps nothing of the shard, and
+			// a request of an older term that arrives afterwards finds a node that has never seen it (the same reading as
+			// for C05; thorough tier, C04, rapid seed 217378: a swapped-out node, DeleteShard, then a late NewTerm(0) and
+			// a stream of the deposed term-0 leader)
+			delete(fences, e.To)
+		}
 		if e.Kind == "newterm.answered" {
 			ho := int64(-1)
 			if e.Head != nil {
